@@ -543,24 +543,26 @@ Section Format.
   Definition parent_is_item (c : cctx) : bool :=
     match c_anc c with p :: _ => is_item p | [] => false end.
 
-  (* format_node: new state and the bool it returns *)
-  Definition format_node (c : cctx) (n : node) (entering : bool) (s : st) : res (st * bool) :=
+  (* the head of format_node: self.node = node and the in_tight_list_item update *)
+  Definition update_tight (c : cctx) (v : node_value) (entering : bool) (s : st) : res st :=
+    let s := set_cur v s in
+    if entering then
+      if parent_is_item c then
+        do t <- get_in_tight_list_item v (c_anc c); Ok (set_in_tight t s)
+      else Ok s
+    else
+      match v with
+      | NList _ =>
+        if parent_is_item c then
+          do t <- get_in_tight_list_item v (c_anc c); Ok (set_in_tight t s)
+        else Ok (set_in_tight false s)
+      | _ => Ok s
+      end.
+
+  (* the `match node.data.borrow().value` of format_node: new state and the bool it returns *)
+  Definition format_node_body (c : cctx) (n : node) (entering : bool) (s : st) : res (st * bool) :=
     match n with
     | Node v _ ch =>
-    let s := set_cur v s in
-    do s <-
-      (if entering then
-         if parent_is_item c then
-           do t <- get_in_tight_list_item v (c_anc c); Ok (set_in_tight t s)
-         else Ok s
-       else
-         match v with
-         | NList _ =>
-           if parent_is_item c then
-             do t <- get_in_tight_list_item v (c_anc c); Ok (set_in_tight t s)
-           else Ok (set_in_tight false s)
-         | _ => Ok s
-         end);
     let next_is_block := match c_next c with None => true | Some x => is_block x end in
     let yes (r : res st) : res (st * bool) := do s' <- r; Ok (s', true) in
     match v with
@@ -657,6 +659,10 @@ Section Format.
     | Alert a => yes (format_alert a entering s)
     end
     end.
+
+  Definition format_node (c : cctx) (n : node) (entering : bool) (s : st) : res (st * bool) :=
+    do s1 <- update_tight c (nval n) entering s;
+    format_node_body c n entering s1.
 
   Definition next_val (l : list node) : option node_value :=
     match l with x :: _ => Some (nval x) | [] => None end.
